@@ -158,12 +158,11 @@ func zzH_C12_batchdb_prefix(t *zzT) {
 	_, okd := lookup(fd)
 	t.Assert(!okd, "Del(k) removes prefix‖k")
 	// the two stored entries are untouched unless addressed
-	for i, e := range []zzEntry{{k: k0, v: v0}, {k: k1, v: v1}} {
+	for _, e := range []zzEntry{{k: k0, v: v0}, {k: k1, v: v1}} {
 		if !bytes.Equal(e.k, fs) && !bytes.Equal(e.k, fd) {
 			g, ok := lookup(e.k)
 			t.Assert(ok && bytes.Equal(g, e.v), "keys not addressed by prefix‖k are untouched")
 		}
-		_ = i
 	}
 	t.Reach("end")
 }
